@@ -203,6 +203,43 @@ def gen_sizes(tier, seed):
     return cases
 
 
+def gen_exc_text(tier, seed):
+    """Client exceptions whose reply text (Debug rendering of the offending frame, server-chosen
+    strings inside) is longer than 255 bytes, with 1/2/3/4-byte UTF-8 characters at every alignment
+    relative to byte 255: the text must be cut on a character boundary, never panic, never overflow."""
+    rng = Rng(seed + 7255)
+    cases = []
+    chars = ["a", "\u00e9", "\u20ac", "\U0001F407"]
+    n = 0
+    pads = range(0, 4) if tier == "quick" else range(0, 8)
+    for cw, chx in enumerate(chars):
+        for pad in pads:
+            for kind in ("queue.declare", "basic.publish", "exchange.declare", "channel.open") if tier != "quick" else ("queue.declare", "basic.publish"):
+                w = len(chx.encode())
+                k = (255 - pad) // w
+                for kk in ([k, k // 2, (k * 3) // 4] if tier == "quick" else [k, k - 1, k // 2, (k * 2) // 3, (k * 3) // 4, k // 4]):
+                    name = "a" * pad + chx * kk
+                    if len(name.encode()) > 255:
+                        continue
+                    ch = 1
+                    if kind == "queue.declare":
+                        f = amqp.method(ch, kind, amqp.u16(0) + amqp.shortstr(name) + amqp.bits(False, False, False, False, False) + amqp.table())
+                    elif kind == "basic.publish":
+                        f = amqp.method(ch, kind, amqp.u16(0) + amqp.shortstr(name[:len(name) // 2]) + amqp.shortstr(name) + amqp.bits(False, False))
+                    elif kind == "exchange.declare":
+                        f = amqp.method(ch, kind, amqp.u16(0) + amqp.shortstr(name) + amqp.shortstr("direct") + amqp.bits(False, False, False, False, False) + amqp.table())
+                    else:
+                        f = amqp.method(ch, kind, amqp.shortstr(name))
+                    c, m = amqp.IDS[kind]
+                    g = Gen(rng, chmax=2, bound=4, via_stream=rng.choice([0.0, 1.0]))
+                    h = g.open_channel(1); g.bind_opened(h, 1)
+                    g.feed([mg.Fr(f, ["method", ch, c, m])])
+                    g.finish()
+                    n += 1
+                    cases.append(g.case("t%d" % n))
+    return cases
+
+
 def suites(tier, seed):
     return [
         Suite("violations-random", "machine", lambda: gen_random(tier, seed), monitor=monitor, nontrivial=nontrivial, canon=mg.canon_nondet, candidate_ok=mg.candidate_ok,
@@ -210,6 +247,8 @@ def suites(tier, seed):
         Suite("violations-exhaustive", "machine", lambda: gen_exhaustive(tier, seed), monitor=monitor, nontrivial=nontrivial, exhaustive=(tier != "quick"),
               rule="sequences of length %d over a 29-shape alphabet covering every arm of the dispatch, on channel {open, 0, never opened}, from 4 collector states (idle / consumer / content method seen / body half received); %s" % (
                   2 if tier == "quick" else 3, "every 6th combination" if tier == "quick" else "ALL for the open channel, every 5th for the others")),
+        Suite("exception-text", "machine", lambda: gen_exc_text(tier, seed), monitor=monitor, nontrivial=lambda c, il: True, canon=mg.canon_nondet, candidate_ok=mg.candidate_ok,
+              rule="client-only methods sent by the server whose string fields are 'a'*pad + c*k for c of 1/2/3/4 UTF-8 bytes, pad 0..3 (0..7 thorough), k chosen so the Debug text of the frame crosses byte 255 at every alignment inside a character: the exception's Connection.Close must be well-formed, <= 255 bytes of text, cut on a character boundary"),
         Suite("announced-sizes", "machine", lambda: gen_sizes(tier, seed), monitor=monitor, nontrivial=nontrivial, exhaustive=True,
               rule="deliver/return/get with announced body sizes {0,1,2,7,2^16,2^31-1,2^31,2^32,2^40,7e10,2^63-1,2^63,2^64-1} followed by a 3-byte body frame, one case per size so that a process abort is attributed"),
     ]
